@@ -15,3 +15,18 @@ K("ct.box_header_prefix", ["C09", "C10"], "jxl-bitstream", BH, BHM, "box_header_
   "relational, all buffers of 0..=18 bytes and every cut: parse(prefix) is NeedMoreData or equals parse(whole)")
 K("ct.box_types", ["C10"], "jxl-bitstream", BH, BHM, "box_type_codes", "complete", ["ContainerBoxType"],
   "the associated consts are the four-character codes of 18181-2; equality is bytewise")
+
+_STEP = ("requires Inv(DetectState, JxlpIndexState) [derived from emit_single: WaitingSignature => Initial; WaitingJxlpIndex => header is jxlp with "
+         "payload None or >= 4 and Jxlp(i <= 2^31); elsewhere Jxlp(i < 2^31); InAuxBox => type not jxlc/jxlp, bytes_left <= box size, "
+         "brob with unread type => bytes_left == size >= 4, brob with read type => type not reserved and bytes_left <= size-4; "
+         "InCodestream bare/invalid => unbounded and Initial, container => not Initial, pending => unbounded], any remaining buffer <= 24 bytes, "
+         "any previous_consumed_bytes; ensures no panic, result/event/payload range/consumption/next state == spec_step (18181-2 section 9 + C10 text), "
+         "previous_consumed_bytes exact, remaining_input is the unread tail, Err => iterator finished, Inv re-established")
+for _h, _ph in [("step_signature", "WaitingSignature"), ("step_box_header", "WaitingBoxHeader"), ("step_jxlp_index", "WaitingJxlpIndex"),
+                ("step_aux_box", "InAuxBox"), ("step_codestream", "InCodestream")]:
+    K("ct." + _h, ["C10", "C01", "C09"], "jxl-bitstream", PA, PAM, _h,
+      "bounded:one remaining feed buffer <= 24 bytes (all Inv states in phase %s, all byte values); unbounded over histories by induction on Inv" % _ph,
+      ["ParseEvents::next", "ParseEvents::emit_single", "ContainerBoxHeader::parse"], _STEP, timeout=300)
+K("ct.init", ["C10", "C01", "C09"], "jxl-bitstream", PA, PAM, "init_establishes_inv", "complete",
+  ["ContainerParser::new", "ContainerParser::kind", "ContainerParser::feed_bytes", "ParseEvents::new", "ContainerParser::previous_consumed_bytes"],
+  "new() satisfies Inv (base case); kind() reflects the state; feed_bytes offers the whole buffer and resets only previous_consumed_bytes")
